@@ -26,6 +26,8 @@ var reviverSrc = []string{
 	`(function(log){return function(k,v){log.push(k);return typeof v==="boolean"?null:v}})`,
 	`(function(log){return function(k,v){log.push(k);return (k!==""&&typeof v==="object")?"o":v}})`,
 	`(function(log){return function(k,v){log.push(k);return (k==="b"||k==="1")?undefined:v}})`,
+	`(function(log){return function(k,v){log.push(k);if(k==="a")delete this.b;return v===undefined?"u":v}})`,
+	`(function(log){return function(k,v){log.push(k);if(k==="a")delete this.b;return v}})`,
 }
 
 func implC11(line string) string {
@@ -540,6 +542,10 @@ func (g *gen) svTok(depth, containers int, sb *strings.Builder) {
 			}
 			used[hk] = true
 			sb.WriteString(hk + ".")
+			if r.Chance(12) {
+				// an accessor whose getter hides a sibling
+				sb.WriteString("H" + unitsHex(keyPool[[]int{0, 1, 2, 19, 3}[r.Intn(5)]]) + ".")
+			}
 			g.svTok(depth-1, containers+1, sb)
 		}
 		sb.WriteString("}")
@@ -722,7 +728,7 @@ func genC11(c *h.Ctx) {
 		}
 	}
 	gc := &gen{r: c.Rng, bd: g.bd, clean: true}
-	for _, s := range []string{`{"a":1,"b":2,"c":3}`, `{"a":1,"b":2}`, `[1,2,3]`, `{"a":[1,"x",true],"b":{"c":3}}`, `{"c":1,"a":2,"b":3,"z":4}`, `[{"a":1,"b":2,"1":3}]`, `{"a":{"a":1,"b":"s","c":null}}`, `1`, `"s"`, `null`, `[]`, `{}`, `{"a":1,"a":2,"b":3}`, `[[1,[2]],{"x":[]}]`} {
+	for _, s := range []string{`{"a":1,"b":2,"c":3}`, `{"a":1,"b":2}`, `{"b":1,"a":2}`, `{"c":0,"a":1,"d":{"a":[],"b":{"a":1,"b":2}},"b":2}`, `[{"a":1,"b":[1]},{"a":1}]`, `[1,2,3]`, `{"a":[1,"x",true],"b":{"c":3}}`, `{"c":1,"a":2,"b":3,"z":4}`, `[{"a":1,"b":2,"1":3}]`, `{"a":{"a":1,"b":"s","c":null}}`, `1`, `"s"`, `null`, `[]`, `{}`, `{"a":1,"a":2,"b":3}`, `[[1,[2]],{"x":[]}]`} {
 		for id := range reviverSrc {
 			c.Add(fmt.Sprintf("parse %s v%d", tt(goUnits(s)), id), "revive:fixed")
 		}
@@ -753,7 +759,17 @@ func genC11(c *h.Ctx) {
 			if c.Rng.Chance(40) {
 				rt = fmt.Sprintf("f%d", c.Rng.Intn(len(replSrc)))
 			}
+			if rt == "f4" && strings.Contains(sb.String(), "H") {
+				rt = "f0"
+			}
 			c.Add("str "+sb.String()+" "+rt+" "+g.spaceTok()+" "+e, "env:str")
+		}
+	}
+	// getters that make a sibling non-enumerable while the object is serialised
+	for _, v := range []string{"O0061.H0062.D3ff00000000000000062.D4000000000000000}", "O0062.D40000000000000000061.H0062.D3ff0000000000000}", "O0061.H0063.AT]0062.N0063.S0078.}", "AH0062.NT]", "O0061.O0061.H0062.N0062.T}0062.F}", "O0061.H0061.N}"} {
+		for _, rt := range []string{"-", "f0", "LS0062.S0061.]", "f1"} {
+			c.Add("str "+v+" "+rt+" -", "str:getter")
+			c.Add("str "+v+" "+rt+" D4000000000000000", "str:getter")
 		}
 	}
 	// scripted wrappers in every value position and as the space argument
@@ -789,6 +805,11 @@ func genC11(c *h.Ctx) {
 	for i := 0; i < c.N(14000, 900000); i++ {
 		var sb strings.Builder
 		g.svTok(4, 0, &sb)
-		c.Add("str "+sb.String()+" "+g.replTok()+" "+g.spaceTok(), "str:random")
+		rt := g.replTok()
+		if rt == "f4" && strings.Contains(sb.String(), "H") {
+			// f4 serialises the value twice; what a getter did the first time would still be in force
+			rt = "f0"
+		}
+		c.Add("str "+sb.String()+" "+rt+" "+g.spaceTok(), "str:random")
 	}
 }
